@@ -155,7 +155,22 @@ func (its *WiredDatatype) checkOptionAndError(ppp *model.PushPullPack) errors.Or
 }
 
 func (its *WiredDatatype) excludeDuplicatedOperations(ppp *model.PushPullPack) {
+	if !ppp.GetPushPullPackOption().HasSubscribeBit() {
+		// After a lost response the retried pull also returns this client's own, already applied
+		// operations, at their place in the log: they are never applied again (and must not be counted
+		// as another client's operations by the arithmetic below).
+		others := make([]*model.Operation, 0, len(ppp.Operations))
+		for _, op := range ppp.Operations {
+			if op.ID == nil || op.ID.CUID != its.opID.CUID {
+				others = append(others, op)
+			}
+		}
+		ppp.Operations = others
+	}
 	pulled := its.calculatePullingOperations(ppp.CheckPoint)
+	if pulled < 0 {
+		pulled = 0 // a response older than what has been applied meanwhile brings nothing new
+	}
 	if len(ppp.Operations) > pulled {
 		// for example, if len(ppp.Operations) == 5: o_1 o_2 o_3 o_4 o_5 are received, and
 		// if `pulled` == 3, o_1 and o_2 were already received,
